@@ -8,7 +8,23 @@ sys.path.insert(0, os.path.dirname(os.path.abspath(__file__)))
 import vlib  # noqa: E402
 
 
+def limit_memory():
+    """A change to the library may make one call allocate without bound (a table sized by a hostile wire field): with a
+    soft address-space limit that call raises MemoryError inside the driver - an observed outcome the specification
+    judges - instead of the whole check being killed.  Soft limit only: TLC / javac children lift it again (vlib)."""
+    try:
+        import resource
+        gb = int(os.environ.get("VERIF_MEM_GB", "40" if "thorough" in sys.argv or os.environ.get("VERIF_TIER") == "thorough" else "16"))
+        soft, hard = resource.getrlimit(resource.RLIMIT_AS)
+        want = gb << 30
+        if gb > 0 and (hard == resource.RLIM_INFINITY or want <= hard) and (soft == resource.RLIM_INFINITY or want < soft):
+            resource.setrlimit(resource.RLIMIT_AS, (want, hard))
+    except Exception:
+        pass
+
+
 def main():
+    limit_memory()
     ap = argparse.ArgumentParser()
     ap.add_argument("pid")
     ap.add_argument("--tier", default=os.environ.get("VERIF_TIER", "quick"), choices=["quick", "thorough"])
